@@ -593,6 +593,11 @@ func (vc *VC) havocEffects(st *State, ef *effects, at ast.Node) *State {
 		nv := vc.fresh(o.Name(), h.vars[o].Sort)
 		h.vars[o] = nv
 		h.assume(vc.rangeFact(o.Type(), nv))
+		if vc.privSlices[o] && nv.Sort == SSlc {
+			// a private local slice (private.go) only ever holds nil or a backing array made by
+			// this activation (make / literal / append)
+			h.assume(Or(Eq(slen(nv), IntLit(0)), app(SBool, ">", sbase(nv), Term{"alloc$base", SInt})))
+		}
 		if !ef.calls {
 			h.assume(vc.allocatedBound(h, o.Type(), nv))
 		}
